@@ -152,6 +152,8 @@ def run(ctx):
     for name in STREAMS:
         ops_p, impl_p, model_p = (os.path.join(ctx.out, name + "." + e) for e in ("ops", "impl", "model"))
         if not os.path.exists(ops_p):
+            if os.environ.get("VERIF_C13_ONLY"):   # debugging aid: only part of the harness was run
+                continue
             ctx.say("HARNESS-FAILED missing stream", name)
             return 2
         if not ctx.driver("c13drv", ops_p, model_p):
@@ -190,10 +192,11 @@ def run(ctx):
     stats = json.load(open(os.path.join(ctx.out, "c13.stats.json")))
     ctx.cov["input_distribution"] = stats["counters"]
     ctx.cov["ops_per_stream"] = per_stream
-    tq_ops = read_lines(os.path.join(ctx.out, "c13_tq.ops"))
-    ep_ops = read_lines(os.path.join(ctx.out, "c13_ep.ops"))
-    ctx.samples = tq_ops[1:6] + [o for o in ep_ops if o.startswith("ep goc")][:3] + \
-        read_lines(os.path.join(ctx.out, "c13_trk.ops"))[1:3] + read_lines(os.path.join(ctx.out, "c13_key.ops"))[:2]
+    def some(name, pred, n):
+        p = os.path.join(ctx.out, name + ".ops")
+        return [o for o in read_lines(p) if pred(o)][:n] if os.path.exists(p) else []
+    ctx.samples = some("c13_tq", lambda o: not o.startswith("tq reset"), 5) + some("c13_ep", lambda o: o.startswith("ep goc"), 3) + \
+        some("c13_trk", lambda o: not o.startswith("trk reset"), 2) + some("c13_key", lambda o: True, 2)
     return ctx.finish(
         rule="evaluations = op lines compared (one op = one released goroutine segment / one pool, tracker, drain or key-function call, "
              "plus the state digests after it); distinct_nontrivial = distinct task-queue schedules (hash of the run/auto/spawn lines) "
